@@ -8,7 +8,7 @@
      every container within the fuel), so an unbound use is reported itself or
      suppressed by the memo of an earlier report of the same name. *)
 From Coq Require Import String Ascii List Bool Arith NArith Lia.
-From SV Require Import C09.Syntax C09.Model C09.Spec C09.ScopeSpec C09.Unfold C09.Proofs C09.ProofsScopeDefs.
+From SV Require Import C09.Syntax C09.Model C09.Spec C09.ScopeSpec C09.Unfold C09.Proofs C09.ProofsScopeDefs C09.ProofsScopeDefs2.
 Import ListNotations.
 
 Definition sk (BL : list blk) : list (option nat * list string) := map (fun k => (k_parent k, k_names k)) BL.
@@ -269,9 +269,9 @@ Proof.
   - eapply reach_mono; [econstructor; eauto|]. lia.
 Qed.
 
-Lemma children_In st b i : Inv st -> (In i (children_of st b) <-> exists ns, nth_error SK i = Some (b, ns)).
+Lemma children_In st b i : sk (blocks st) = SK -> (In i (children_of st b) <-> exists ns, nth_error SK i = Some (b, ns)).
 Proof.
-  intros (I1 & _). unfold children_of. rewrite filter_In, in_seq. split.
+  intros I1. unfold children_of. rewrite filter_In, in_seq. split.
   - intros [_ H]. destruct (nth_error (blocks st) i) as [k|] eqn:Ek; [|discriminate].
     apply sk_nth in Ek. rewrite I1 in Ek. apply (matchc_eq (k_parent k) b) in H. subst b. eauto.
   - intros (ns & H). rewrite <- I1 in H. pose proof H as H'. apply sk_nth_inv in H. destruct H as (k & Hk & Hp & _).
@@ -303,7 +303,7 @@ Proof.
     split; [exact A'|]. split; [eapply mono_trans; eauto|].
     intros cu Hcu Hr. inversion Hr; subst.
     + apply C'; auto. apply matchc_refl.
-    + eapply Q_mono; [exact B'|]. eapply C; eauto. apply (children_In st b i HI). eauto.
+    + eapply Q_mono; [exact B'|]. eapply C; eauto. apply (children_In st b i (proj1 HI)). eauto.
 Qed.
 
 Lemma end_pass st : Inv st ->
@@ -316,6 +316,252 @@ Proof.
   destruct c as [i|]; [|constructor].
   pose proof (BUcont _ _ i Hcu eq_refl) as Hi.
   eapply reach_mono; [apply (reach_all i Hi (Some i) 1); constructor|]. lia.
+Qed.
+
+(* ---- the same pass, generically: any invariant I with a monotone order M and a per-use goal Qg
+   established by one lookup is established for every deferred use ---- *)
+Section Gen.
+Variable I : rs -> Prop.
+Variable M : rs -> rs -> Prop.
+Variable Qg : rs -> option nat * use -> Prop.
+Hypothesis M_refl : forall st, M st st.
+Hypothesis M_trans : forall a b c, M a b -> M b c -> M a c.
+Hypothesis Qg_mono : forall st st' cu, M st st' -> Qg st cu -> Qg st' cu.
+Hypothesis I_sk : forall st, I st -> sk (blocks st) = SK.
+Hypothesis I_bu : forall st, I st -> buses st = BU.
+Hypothesis I_step : forall c u, In (c, u) BU -> forall st, I st ->
+  I (lookupLexical opts W (length (blocks st)) st (u_node u) (u_name u) (u_env u)) /\
+  M st (lookupLexical opts W (length (blocks st)) st (u_node u) (u_name u) (u_env u)) /\
+  Qg (lookupLexical opts W (length (blocks st)) st (u_node u) (u_name u) (u_env u)) (c, u).
+
+Lemma g_fold_uses c l : (forall cu, In cu l -> In cu BU) -> forall st, I st ->
+  I (fold_left (ustep c) l st) /\ M st (fold_left (ustep c) l st) /\
+  (forall cu, In cu l -> matchc (fst cu) c = true -> Qg (fold_left (ustep c) l st) cu).
+Proof.
+  induction l as [|cu l IH]; intros Hl st HI; simpl.
+  - split; [exact HI|]. split; [apply M_refl|]. intros cu [].
+  - assert (S1 : I (ustep c st cu) /\ M st (ustep c st cu) /\ (matchc (fst cu) c = true -> Qg (ustep c st cu) cu)).
+    { unfold ustep. destruct (matchc (fst cu) c) eqn:Em.
+      - destruct cu as [c1 u1]. simpl.
+        assert (Hin : In (c1, u1) BU) by (apply Hl; left; auto).
+        destruct (I_step c1 u1 Hin st HI) as (A & B & C). split; [exact A|]. split; [exact B|]. intros _. exact C.
+      - split; [exact HI|]. split; [apply M_refl|]. discriminate. }
+    destruct S1 as (A & B & C).
+    destruct (IH (fun cu' H => Hl cu' (or_intror H)) _ A) as (A' & B' & C').
+    split; [exact A'|]. split; [eapply M_trans; eauto|].
+    intros cu' [<-|Hin] Hm; auto. eapply Qg_mono; [exact B'|]. auto.
+Qed.
+
+Lemma g_resolve_uses st c : I st ->
+  I (resolve_uses_of opts W st c) /\ M st (resolve_uses_of opts W st c) /\
+  (forall cu, In cu BU -> matchc (fst cu) c = true -> Qg (resolve_uses_of opts W st c) cu).
+Proof.
+  intros HI. pose proof (I_bu st HI) as I4.
+  change (resolve_uses_of opts W st c) with (fold_left (ustep c) (buses st) st). rewrite I4.
+  apply g_fold_uses; auto.
+Qed.
+
+Lemma g_rnlu : forall fuel st b, I st ->
+  I (resolveNonLocalUses opts W fuel st b) /\ M st (resolveNonLocalUses opts W fuel st b) /\
+  (forall cu, In cu BU -> reach fuel b (fst cu) -> Qg (resolveNonLocalUses opts W fuel st b) cu).
+Proof.
+  induction fuel as [|fu IH]; intros st b HI; simpl.
+  - split; [exact HI|]. split; [apply M_refl|]. intros cu _ H. inversion H.
+  - assert (Ch : forall l st, I st ->
+              I (fold_left (fun st c => resolveNonLocalUses opts W fu st (Some c)) l st) /\
+              M st (fold_left (fun st c => resolveNonLocalUses opts W fu st (Some c)) l st) /\
+              (forall i, In i l -> forall cu, In cu BU -> reach fu (Some i) (fst cu) ->
+                 Qg (fold_left (fun st c => resolveNonLocalUses opts W fu st (Some c)) l st) cu)).
+    { induction l as [|i l IHl]; intros s HIs; simpl.
+      - split; [exact HIs|]. split; [apply M_refl|]. intros i [].
+      - destruct (IH s (Some i) HIs) as (A & B & C).
+        destruct (IHl _ A) as (A' & B' & C').
+        split; [exact A'|]. split; [eapply M_trans; eauto|].
+        intros j [<-|Hj] cu Hcu Hr; [|eauto]. eapply Qg_mono; [exact B'|]. auto. }
+    destruct (Ch (children_of st b) st HI) as (A & B & C).
+    set (st1 := fold_left (fun st c => resolveNonLocalUses opts W fu st (Some c)) (children_of st b) st) in *.
+    destruct (g_resolve_uses st1 b A) as (A' & B' & C').
+    split; [exact A'|]. split; [eapply M_trans; eauto|].
+    intros cu Hcu Hr. inversion Hr; subst.
+    + apply C'; auto. apply matchc_refl.
+    + eapply Qg_mono; [exact B'|]. eapply C; eauto. apply (children_In st b i (I_sk st HI)). eauto.
+Qed.
+
+Lemma g_end_pass st : I st ->
+  I (resolveNonLocalUses opts W (S (length SK)) st None) /\
+  M st (resolveNonLocalUses opts W (S (length SK)) st None) /\
+  (forall cu, In cu BU -> Qg (resolveNonLocalUses opts W (S (length SK)) st None) cu).
+Proof.
+  intros HI. destruct (g_rnlu (S (length SK)) st None HI) as (A & B & C).
+  split; [exact A|]. split; [exact B|]. intros [c u] Hcu. apply C; auto. simpl.
+  destruct c as [i|]; [|constructor].
+  pose proof (BUcont _ _ i Hcu eq_refl) as Hi.
+  eapply reach_mono; [apply (reach_all i Hi (Some i) 1); constructor|]. lia.
+Qed.
+
+End Gen.
+
+(* ---- `set` without the Set option ---- *)
+Variable E0S : N -> Prop.
+
+Definition TUS : Prop :=
+  o_set opts = false /\ mem "set"%string F = false /\ mem "set"%string G = false /\
+  mem "set"%string (w_predeclared W) = false /\ mem "set"%string (w_universal W) = true.
+
+Definition InvS (st : rs) : Prop :=
+  sk (blocks st) = SK /\ globals st = G /\ fileb st = F /\ buses st = BU /\
+  PremOK opts W st /\
+  (forall i k, nth_error (blocks st) i = Some k -> mem "set"%string (k_memo k) = true ->
+     Unb "set"%string (Some i) -> TUS -> SR st) /\
+  (forall m, setr st m -> E0S m \/ exists c u, In (c, u) BU /\ u_node u = m /\ u_name u = "set"%string /\
+                                   Unb "set"%string (u_env u) /\ TUS).
+
+Definition monoS (st st' : rs) : Prop := SR st -> SR st'.
+
+Section LookS.
+Variable n : N.
+Variable x : string.
+Variable c0 : option nat.
+Variable u0 : use.
+Hypothesis Hin : In (c0, u0) BU.
+Hypothesis Hn : u_node u0 = n.
+Hypothesis Hx : u_name u0 = x.
+
+Lemma InvS_ext st st' (P : Prop) :
+  blocks st' = blocks st -> globals st' = globals st -> fileb st' = fileb st -> buses st' = buses st ->
+  PremOK opts W st' ->
+  (forall m, setr st' m <-> setr st m \/ (m = n /\ P)) ->
+  (P -> x = "set"%string /\ Unb "set"%string (u_env u0) /\ TUS) ->
+  InvS st -> InvS st' /\ monoS st st'.
+Proof.
+  intros B Gl Fi Bu Pm Hu HP (I1 & I2 & I3 & I4 & I5 & I6 & I7).
+  assert (Mo : monoS st st') by (intros (m & Hm); exists m; apply Hu; auto).
+  split; [|exact Mo]. unfold InvS. rewrite B, Gl, Fi, Bu. repeat split; auto.
+  - intros i k Hk Hy HU HT. apply Mo. eapply I6; eauto.
+  - intros m Hm. apply Hu in Hm. destruct Hm as [Hm|[-> HPP]]; auto.
+    right. exists c0, u0. destruct (HP HPP) as (E & HU & HT). rewrite Hn, Hx. auto.
+Qed.
+
+Lemma useTop_invS st :
+  InvS st -> (Unb x None -> Unb x (u_env u0)) ->
+  InvS (useToplevel opts W st n x) /\ monoS st (useToplevel opts W st n x) /\
+  (x = "set"%string -> TUS -> SR (useToplevel opts W st n x)).
+Proof.
+  intros HI Hch. pose proof HI as (I1 & I2 & I3 & I4 & I5 & I6 & I7). unfold useToplevel.
+  destruct (mem x (fileb st)) eqn:Ef.
+  { split; [exact HI|]. split; [intros H; exact H|]. intros Exs (_ & T1 & _). rewrite Exs, I3 in Ef. congruence. }
+  destruct (mem x (globals st)) eqn:Eg.
+  { split; [exact HI|]. split; [intros H; exact H|]. intros Exs (_ & _ & T2 & _). rewrite Exs, I2 in Eg. congruence. }
+  destruct (mem x (premem st)) eqn:Ep.
+  { split; [exact HI|]. split; [intros H; exact H|]. intros Exs (T0 & _ & _ & T3 & _). rewrite Exs in Ep.
+    destruct (I5 Ep) as [H|[H|H]]; auto; congruence. }
+  destruct (mem x (w_predeclared W)) eqn:Epre.
+  { match goal with |- InvS ?S /\ _ => destruct (InvS_ext st S False) as [A B]; auto end.
+    - unfold PremOK. simpl premem. rewrite mem_cons_set. intros H. apply orb_prop in H. destruct H as [H|H].
+      + apply String.eqb_eq in H. rewrite <- H in Epre. left. exact Epre.
+      + destruct (I5 H) as [K0|[K0|K0]]; auto.
+    - intros m. simpl. tauto.
+    - tauto.
+    - split; [exact A|]. split; [exact B|]. intros Exs (_ & _ & _ & T3 & _). rewrite Exs in Epre. congruence. }
+  destruct (mem x (w_universal W)) eqn:Euni.
+  { destruct (negb (o_set opts) && String.eqb x "set") eqn:Ec.
+    - apply andb_prop in Ec. destruct Ec as [Ec1 Ec2]. apply String.eqb_eq in Ec2.
+      assert (Hos : o_set opts = false) by (destruct (o_set opts); [discriminate|reflexivity]).
+      assert (HS : SR (set_scope (errorf st RSetUnsupported n) (globals (errorf st RSetUnsupported n))
+                         (fileb (errorf st RSetUnsupported n)) (x :: premem (errorf st RSetUnsupported n)))).
+      { exists n. unfold setr. simpl. apply in_or_app. right. left. reflexivity. }
+      match goal with |- InvS ?S /\ _ => destruct (InvS_ext st S True) as [A B]; auto end.
+      + intros _. right. right. exact HS.
+      + intros m. unfold setr. simpl. rewrite in_app_iff. simpl. split.
+        * intros [H|[H|[]]]; auto. inversion H; subst. auto.
+        * intros [H|[-> _]]; auto.
+      + intros _. split; [exact Ec2|]. split.
+        * rewrite <- Ec2. apply Hch. constructor.
+        * unfold TUS. rewrite <- I2, <- I3, <- Ec2. auto.
+    - match goal with |- InvS ?S /\ _ => destruct (InvS_ext st S False) as [A B]; auto end.
+      + unfold PremOK. simpl premem. rewrite mem_cons_set. intros H. apply orb_prop in H. destruct H as [H|H].
+        * apply String.eqb_eq in H. rewrite <- H in Ec. simpl in Ec. rewrite andb_true_r in Ec.
+          right. left. destruct (o_set opts); [reflexivity|discriminate].
+        * destruct (I5 H) as [K0|[K0|K0]]; auto.
+      + intros m. simpl. tauto.
+      + tauto.
+      + split; [exact A|]. split; [exact B|]. intros Exs (T0 & _). rewrite T0, Exs in Ec. simpl in Ec. discriminate. }
+  match goal with |- InvS ?S /\ _ => destruct (InvS_ext st S False) as [A B]; auto end.
+  - unfold PremOK. simpl premem. intros H. destruct (I5 H) as [K0|[K0|[m K0]]]; auto.
+    right. right. exists m. apply setr_errorf. auto.
+  - intros m. rewrite setr_errorf. split; [|intros [H|[_ []]]; auto]. intros [H|[H _]]; auto. discriminate.
+  - tauto.
+  - split; [exact A|]. split; [exact B|]. intros Exs (_ & _ & _ & _ & T4). rewrite Exs in Euni. congruence.
+Qed.
+
+Lemma lookup_invS : forall fuel st e,
+  InvS st -> (forall b, e = Some b -> b < fuel) -> (Unb x e -> Unb x (u_env u0)) ->
+  InvS (lookupLexical opts W fuel st n x e) /\ monoS st (lookupLexical opts W fuel st n x e) /\
+  (x = "set"%string -> Unb x e -> TUS -> SR (lookupLexical opts W fuel st n x e)).
+Proof.
+  induction fuel as [|fu IH]; intros st e HI Hfu Hch.
+  - destruct e as [b|]; [specialize (Hfu b eq_refl); lia|]. simpl.
+    destruct (useTop_invS st HI Hch) as (A & B & C). split; [exact A|]. split; [exact B|]. intros; apply C; auto.
+  - destruct e as [b|]; simpl.
+    2:{ destruct (useTop_invS st HI Hch) as (A & B & C). split; [exact A|]. split; [exact B|]. intros; apply C; auto. }
+    pose proof HI as (I1 & I2 & I3 & I4 & I5 & I6 & I7).
+    destruct (nth_error (blocks st) b) as [k|] eqn:Ek.
+    2:{ split; [exact HI|]. split; [intros H; exact H|].
+        intros _ HU _. inversion HU; subst. rewrite <- I1 in H0. apply sk_nth_inv in H0.
+        destruct H0 as (k & Hk & _). congruence. }
+    pose proof (sk_nth _ _ _ Ek) as Hsk. rewrite I1 in Hsk.
+    destruct (mem x (k_names k) || mem x (k_memo k)) eqn:Efound.
+    { split; [exact HI|]. split; [intros H; exact H|].
+      intros Exs HU HT. rewrite Exs in HU, Efound. inversion HU; subst. rewrite Hsk in H0. inversion H0; subst.
+      rewrite H1 in Efound. simpl in Efound. eapply I6; eauto. }
+    apply orb_false_iff in Efound. destruct Efound as [En Em].
+    assert (Hch' : Unb x (k_parent k) -> Unb x (u_env u0)).
+    { intros HU. apply Hch. econstructor; eauto. }
+    assert (Hfu' : forall p, k_parent k = Some p -> p < fu).
+    { intros p Hp. rewrite Hp in Hsk. apply Hpar in Hsk. specialize (Hfu b eq_refl). lia. }
+    destruct (IH st (k_parent k) HI Hfu' Hch') as (A & B & C).
+    set (st1 := lookupLexical opts W fu st n x (k_parent k)) in *.
+    pose proof A as (A1 & A2 & A3 & A4 & A5 & A6 & A7).
+    assert (Hk1 : exists k1, nth_error (blocks st1) b = Some k1 /\ k_parent k1 = k_parent k /\ k_names k1 = k_names k).
+    { apply sk_nth_inv. rewrite A1. exact Hsk. }
+    destruct Hk1 as (k1 & Hk1 & Hp1 & Hn1).
+    assert (HUpar : Unb x (Some b) -> Unb x (k_parent k)).
+    { intros HU. inversion HU; subst. rewrite Hsk in H0. inversion H0; subst. auto. }
+    split; [|split; [exact B|]].
+    + unfold InvS. simpl. rewrite sk_upd_memo. repeat split; auto.
+      intros i k' Hk' Hy HU HT. destruct (Nat.eq_dec b i) as [<-|Hne].
+      * rewrite (nth_error_upd_blk_same _ _ _ _ Hk1) in Hk'. inversion Hk'; subst k'. cbn [k_memo] in Hy. rewrite mem_cons_set in Hy.
+        destruct (String.eqb "set" x) eqn:Ey.
+        -- apply String.eqb_eq in Ey. apply C; [symmetry; exact Ey|apply HUpar; rewrite <- Ey; exact HU|exact HT].
+        -- simpl in Hy. apply (A6 b k1 Hk1 Hy HU HT).
+      * rewrite nth_error_upd_blk_other in Hk' by auto. apply (A6 i k' Hk' Hy HU HT).
+    + intros Hxs HU HT. apply C; [exact Hxs|apply HUpar; exact HU|exact HT].
+Qed.
+
+End LookS.
+
+Definition QS (st : rs) (cu : option nat * use) : Prop :=
+  u_name (snd cu) = "set"%string -> Unb "set"%string (u_env (snd cu)) -> TUS -> SR st.
+
+Lemma end_passS st : InvS st ->
+  InvS (resolveNonLocalUses opts W (S (length SK)) st None) /\
+  monoS st (resolveNonLocalUses opts W (S (length SK)) st None) /\
+  (forall cu, In cu BU -> QS (resolveNonLocalUses opts W (S (length SK)) st None) cu).
+Proof.
+  apply (g_end_pass InvS monoS QS).
+  - intros s H. exact H.
+  - intros a b c H1 H2 H. auto.
+  - intros s s' cu Mo Hq E HU HT. apply Mo. apply Hq; auto.
+  - intros s (I1 & _). exact I1.
+  - intros s (_ & _ & _ & I4 & _). exact I4.
+  - intros c u Hin s HI.
+    assert (Hlen : length (blocks s) = length SK).
+    { destruct HI as (I1 & _). rewrite <- I1. unfold sk. rewrite map_length. reflexivity. }
+    destruct (lookup_invS (u_node u) (u_name u) c u Hin eq_refl eq_refl (length (blocks s)) s (u_env u) HI)
+      as (A & B & C).
+    + intros b Hb. rewrite Hlen. eapply BUenv; eauto.
+    + auto.
+    + split; [exact A|]. split; [exact B|]. intros E HU HT. simpl in *. apply C; auto. rewrite E. exact HU.
 Qed.
 
 End E.
